@@ -113,7 +113,7 @@ Emit(v, o, depth) ==
                         Sp(o.obc) \o <<44, 10>>)
             \o <<10>> \o Indent(o, depth) \o <<125>>
 
-Print(v, o) == Emit(v, o, 0)
+Render(v, o) == Emit(v, o, 0)
 
 \* delete insignificant whitespace (whitespace outside string literals)
 RECURSIVE StripFrom(_, _, _, _)
